@@ -49,6 +49,23 @@ if what in ('mutants', 'all'):
         ok = code == want
         bad += not ok
         print('%-8s %s exit=%d %s %s' % (n, prop, code, 'ok' if ok else 'UNEXPECTED (wanted %d)' % want, first[:150]), flush=True)
+BENIGN = {      # behaviour-preserving refactorings: the checks most exposed to each must stay silent (exit 0); 'benign-all' runs every check
+    'b01_bump_pointer_loop': ['C06', 'C03'], 'b02_utf8_equivalent_tests': ['C10', 'C14', 'C06'], 'b03_coverage_local_refs': ['C08'], 'b04_fold_one_swapped_branches': ['C12'],
+    'b05_utf8_append_two_pushes': ['C17'], 'b06_forwarder_with_assert': ['C06', 'C03'], 'b07_raw_close_loop_reindexed': ['C16', 'C03', 'C02'], 'b08_begin_of_line_rearranged': ['C19'],
+    'b09_string_early_returns': ['C09', 'C06', 'C03', 'C02'], 'b10_eol_reordered_conjuncts': ['C06', 'C09', 'C07', 'C03'],
+}
+if what in ('benign', 'benign-all', 'all'):
+    allp = [c['property_id'] for c in json.load(open('MANIFEST.json'))['checks']]
+    for f in sorted(os.listdir('tests/benign')):
+        n = f[:-5]
+        if names and n not in names: continue
+        res = run('tests/benign/' + f, allp if what == 'benign-all' else BENIGN.get(n, allp))
+        if res is None:
+            print(n, 'PATCH DOES NOT APPLY'); bad += 1; continue
+        for p, (code, first) in res.items():
+            ok = code == 0
+            bad += not ok
+            print('%-32s %s exit=%d %s %s' % (n, p, code, 'ok' if ok else 'FALSE ALARM' if code == 1 else 'ANALYSIS BROKEN', first[:170]), flush=True)
 if what in ('seeds', 'all'):
     props = [c['property_id'] for c in json.load(open('MANIFEST.json'))['checks']]
     for d in sorted(os.listdir('seeded')):
